@@ -583,6 +583,46 @@ func ruleRangeWindow(r *Run) {
 				ob.Fail(r.pos(nextCall.Pos()), "the iterator reads into %s, not i.entry", describe(nextCall.Common().Args[0], 0))
 			}
 		}
+		// eviction runs at every step: no path through Next reports a step without having evicted
+		// (a window that keeps expired points when nothing new arrives)
+		if !bad && (clearCall != nil || evictAt != nil) {
+			inG := map[*ssa.Function]bool{}
+			for _, g := range fwGrp {
+				inG[g] = true
+			}
+			w := &feWalker{Fn: nx, MaxPath: 30000, Inline: func(c *ssa.Function, d int) bool { return inG[c] && c != cw && c.Parent() == nil && d <= 3 }}
+			if evictInline {
+				w.Inline = func(c *ssa.Function, d int) bool { return inG[c] && c.Parent() == nil && d <= 3 }
+			}
+			ends := w.Run()
+			if w.Aborted {
+				bad = true
+				ob.Undecide(r.pos(nx.Pos()), "path enumeration aborted")
+			}
+			for _, e := range ends {
+				if e.Cut || len(e.Results) != 1 || !e.Results[0].Known || !constant.BoolVal(e.Results[0].C) {
+					continue
+				}
+				evicted := false
+				for _, c := range e.State.calls {
+					if clearCall != nil && c.Call == clearCall {
+						evicted = true
+					}
+				}
+				if evictAt != nil {
+					for _, b := range e.State.trail {
+						if b == evictAt.Block() {
+							evicted = true
+						}
+					}
+				}
+				if !evicted {
+					bad = true
+					ob.Fail(r.pos(e.Term.Pos()), "a step is reported on a path that did not evict expired points: the window keeps points older than its lower edge when nothing new arrives")
+					break
+				}
+			}
+		}
 		if !bad {
 			ob.OK("clearWindow(windowStart) first; iter.Next(&i.entry) only when !buffered").At(r.pos(fw.Pos()))
 		}
